@@ -86,3 +86,68 @@ Example C05_compiled_bytes_nonvacuous :
      /\ compile [] (L "let n = 0x10; T | where a == -b + 1.50e3 and c in ('x--', n) | join kind=leftouter (U | summarize m = max(x) by k) on k | sort by m desc | take n") = COk ps
      /\ sql_lex ClickHouse (render ps) = Some ts /\ ptoks ps = Some ts.
 Proof. eexists _, _, _. split; [vm_compute; reflexivity|]. split; [repeat constructor|]. split; [vm_compute; reflexivity|]. split; vm_compute; reflexivity. Qed.
+
+(** ** what the statement reads (Proofs/NamesFacts.v) *)
+From PQL Require Import Proofs.PipelineFacts Proofs.JoinFacts Proofs.NamesFacts Proofs.DecFacts.
+
+(** [reads s] is what the FROM / JOIN of the SELECT printed for [s] names: the source is printed as
+    the quoted name, or as  [(SELECT DISTINCT * FROM] l [)] AS "$left" [LEFT] JOIN r AS "$right" ON cond *)
+Theorem C05_source_names : forall s,
+  match sq_source s with
+  | SrcName n => render_source (sq_source s) = [PIdent n] /\ reads s = [n]
+  | SrcJoin u l o r _ c =>
+    exists a b d, render_source (sq_source s) = a ++ [PIdent l] ++ b ++ [PIdent r] ++ d ++ c /\ reads s = [l; r] /\
+                  Forall (fun p => match p with PLit _ => True | _ => False end) (a ++ b ++ d)
+  end.
+Proof.
+  intros s. unfold reads. destruct (sq_source s) as [n|u l o r ce c]; [split; reflexivity|].
+  exists (if u then lit "(SELECT DISTINCT * FROM " else []),
+         ((if u then lit ")" else []) ++ lit " AS ""$left""" ++ (if o then lit " LEFT JOIN " else lit " JOIN ")),
+         (lit " AS ""$right"" ON ").
+  split; [cbn [render_source]; rewrite <- !app_assoc; reflexivity|]. split; [reflexivity|].
+  destruct u, o; repeat constructor.
+Qed.
+Print Assumptions C05_source_names.
+
+(** every table a subquery reads is a table named in the PQL source (the pipeline's table or the
+    table of a join's right-hand side, at any depth) or an earlier subquery of the same statement *)
+Theorem C05_tables_resolved : forall sc t subs i s, split_queries sc [] t = Ok subs -> nth_error subs i = Some s ->
+  forall n, In n (reads s) -> In n (tab_tables t) \/ exists j s', (j < i)%nat /\ nth_error subs j = Some s' /\ sq_name s' = n.
+Proof. exact tables_resolved. Qed.
+Print Assumptions C05_tables_resolved.
+
+(** a subquery that is not the target of an `as` is called __subquery<its index>; these names are
+    pairwise different *)
+Theorem C05_generated_names : forall sc t subs i s, split_queries sc [] t = Ok subs -> nth_error subs i = Some s ->
+  is_as s = false -> sq_name s = subquery_name i.
+Proof. exact generated_names. Qed.
+Print Assumptions C05_generated_names.
+
+Theorem C05_generated_names_unique : forall sc t subs i j s s', split_queries sc [] t = Ok subs ->
+  nth_error subs i = Some s -> nth_error subs j = Some s' -> is_as s = false -> is_as s' = false ->
+  sq_name s = sq_name s' -> i = j.
+Proof.
+  intros sc t subs i j s s' H Hi Hj Ha Ha' E.
+  rewrite (generated_names sc t subs i s H Hi Ha), (generated_names sc t subs j s' H Hj Ha') in E.
+  apply subquery_name_inj. exact E.
+Qed.
+Print Assumptions C05_generated_names_unique.
+
+(** no common table expression is left unused: every subquery but the last is read by a later one *)
+Theorem C05_every_cte_is_read : forall sc t subs j s, split_queries sc [] t = Ok subs -> nth_error subs j = Some s ->
+  (j + 1 < length subs)%nat -> exists i s', (j < i)%nat /\ nth_error subs i = Some s' /\ In (sq_name s) (reads s').
+Proof. exact every_cte_is_read. Qed.
+Print Assumptions C05_every_cte_is_read.
+
+(** no internal placeholder reaches the output of a parsed program: the printed pieces are
+    tokens of the dialect ([ptoks] is undefined on a placeholder piece) *)
+From PQL Require Import Proofs.ParsedWf Proofs.SqlGlueProg Proofs.LexTokOk.
+Theorem C05_no_placeholder : forall s ss ps, parse s = ParseOk ss -> Forall names_ok_stmt ss -> compile [] s = COk ps ->
+  Forall (fun p => match p with PHole _ => False | _ => True end) ps.
+Proof.
+  intros s ss ps P N C. destruct (compile_lexes s ss ps P N C) as (ts & Ht & _). clear - Ht.
+  revert ts Ht. induction ps as [|p r IH]; intros ts Ht; [constructor|]. cbn [ptoks] in Ht.
+  destruct (ptok p) as [a|] eqn:Ea; [|discriminate]. destruct (ptoks r) as [b|] eqn:Eb; [|discriminate].
+  constructor; [destruct p; try exact I; discriminate|]. eapply IH. reflexivity.
+Qed.
+Print Assumptions C05_no_placeholder.
